@@ -77,6 +77,7 @@ void selectNet(const std::string& name);
 /** Component harnesses (no UCI session): route the repo hooks to history h and take hook knobs from sc. */
 void beginUnit(const vf::Scenario& sc, History& h);
 void setTTYield(bool on);
+long bestmovesSoFar();                    // number of bestmove lines printed so far in the running session
 
 /** GUI ops of the form "x <text>" are handed to this callback (e.g. file manipulation between commands). */
 extern void (*customOp)(const std::string& text);
